@@ -360,7 +360,7 @@ def matched(line):
 
 
 def failures(case, obs, refs=None):
-    """-> [(path, message, kind)]   kind: None | 'multi' | 'null'  (which known finding explains it)"""
+    """-> [(path, message, kind)]   kind: None | 'multi'  (which known finding explains it)"""
     doc, paths = case
     ld = None
     out = []
@@ -445,13 +445,14 @@ def optional_failure(doc, p, line, default, want, multi):
         if w in extra:
             extra.remove(w)
     rest = [x for x in got_o if x != null_id]
-    # F10: the walk stopped at a null that a segment OTHER than the last one selected, and yields it; apart from
-    # such nulls the answer is the documented one
-    f10 = bool(extra) and all(x == null_id for x in extra) and pr["null_mid"] and not pr["changed"] \
+    # (was finding F10, repaired by fix 09e1e7a) the walk stopped at a null that a segment OTHER than the last one
+    # selected, and yielded it: since the repair the walk goes on through the null, so such an answer is a violation
+    stopped = bool(extra) and all(x == null_id for x in extra) and pr["null_mid"] \
         and rest == [w for w in want if w != null_id]
-    return (p, "%s on %r (existing path) selects %s%s, required/documented %s"
-            % (how, doc, got_o, " and changes the document" if pr["changed"] else "", want),
-            "null" if f10 else (multi or None))
+    return (p, "%s on %r (existing path) selects %s%s, required/documented %s%s"
+            % (how, doc, got_o, " and changes the document" if pr["changed"] else "", want,
+               " (the walk stopped at a null intermediate node and yielded it)" if stopped else ""),
+            multi or None)
 
 
 def NULL_ID(doc):
@@ -485,13 +486,6 @@ def judge(case, obs):
     return fs[0][1] if fs else None
 
 
-def f10_optional_stops_at_null(case, obs):
-    """the optional query yields a null intermediate node although the path continues (every failure of the
-    case is explained by a listed finding, at least one by this one)"""
-    fs = failures(case, obs)
-    return bool(fs) and all(k is not None for _, _, k in fs) and any(k == "null" for _, _, k in fs)
-
-
 def f_multi_descendant(case, obs):
     """a search whose attribute path reaches SEVERAL nodes below one candidate: the code decides by the first of
     them (list elements) or by 'any node passes the possibly inverted test' (hashes) instead of 'some node
@@ -501,7 +495,8 @@ def f_multi_descendant(case, obs):
     return bool(fs) and all(k is not None for _, _, k in fs) and any(k == "multi" for _, _, k in fs)
 
 
-FINDING_PREDS = {"optional_stops_at_null": f10_optional_stops_at_null, "multi_descendant_search": f_multi_descendant}
+# F10 optional_stops_at_null is repaired (fix 09e1e7a): an optional walk that yields an intermediate null is a violation
+FINDING_PREDS = {"multi_descendant_search": f_multi_descendant}
 
 
 def classify(case, obs):
@@ -533,9 +528,11 @@ NUM_DOCS = ["[1.5]", "[1, 1.5, 2]", "{a: 1.5}", "[{a: 1.5}, {a: 1}, {a: 2.5}]", 
 NUM_TERMS = ["1.5", "1", "1.0", "2", "2.0", "-1", "0", "0.0", "a"]
 NUM_OPS = ["<=", ">=", "<", ">", "=", "=="]
 NULL_DOCS = ["{a: null}", "{a: {b: null}}", "[{a: null}]", "{a: [null]}", "[null]", "{a: null, b: 1}", "[null, 1]",
-             "{a: {b: null, c: 1}}", "[{a: null}, {a: null}]", "{a: ~, b: {a: ~}}", "[[null]]", "{a: [{b: null}]}"]
+             "{a: {b: null, c: 1}}", "[{a: null}, {a: null}]", "{a: ~, b: {a: ~}}", "[[null]]", "{a: [{b: null}]}",
+             "[{a: null}, {a: {b: 1}}]", "{a: [null, {b: 1}]}", "{c: {a: null}, d: {a: {b: 1}}}"]
 NULL_PATHS = ["a", "/a", "a.b", "/a/b", "[0].a", "a[0]", "[0]", "/[0]", "*", "**", "a.*", "b.a", "[0][0]", "a[0].b",
-              "a.b.c", "[.=~/./]", "[a=1]", "[1]", "b", "a.c", "[&x]"]
+              "a.b.c", "[.=~/./]", "[a=1]", "[1]", "b", "a.c", "[&x]", "a.**", "a[.!=x]", "a[b=1]", "*.a.*", "*.a.b", "a.*.b",
+              "a[b!=x]"]
 
 
 def mini_cases():
